@@ -552,8 +552,8 @@ pub fn run_twin(case: &TwinCase, mode: &str, stats: &mut Stats, mut calls_out: O
                 if mode == "C22" {
                     // coinbase as a party of the transaction: the twins may legitimately diverge
                     let cb = block_a.coinbase;
-                    let party_a = a.monitor().map(|m| m.ether_touched.contains(&cb) || m.addresses_called.contains(&cb)).unwrap_or(false);
-                    let party_b = b.monitor().map(|m| m.ether_touched.contains(&cb) || m.addresses_called.contains(&cb)).unwrap_or(false);
+                    let party_a = a.monitor().map(|m| m.ether_touched.contains(&cb) || m.addresses_called.contains(&cb) || m.balance_observed.contains(&cb)).unwrap_or(false);
+                    let party_b = b.monitor().map(|m| m.ether_touched.contains(&cb) || m.addresses_called.contains(&cb) || m.balance_observed.contains(&cb)).unwrap_or(false);
                     if party_a || party_b || tx.caller == cb || tx.to == Some(cb) {
                         coinbase_party = true;
                         stats.inc("probe.coinbase_is_party");
